@@ -231,14 +231,21 @@ def _shared_option_entry(nodes, share):
     return False
 
 
-def mk(nodes, share):
+REPL_SETTINGS = {"replace": {"Aardvark": {"type": "::std::string::String", "impls": []}}}
+
+
+def mk(nodes, share, repl=False):
     defs = {"D%d" % i: node_schema(nd) for i, nd in enumerate(nodes)}
+    if repl:
+        # a definition of the same batch that is REPLACED (with_replacement) and sorts before the others; D0 mentions it
+        defs["Aardvark"] = {"type": "string"}
+        defs["Mango"] = {"type": "object", "properties": {"label": {"$ref": "#/definitions/Aardvark"}}}
     if share:
         defs["S"] = {"type": "object", "properties": {"p": ref(0), "q": {"type": "array", "items": [ref(0), INT], "minItems": 2, "maxItems": 2},
                                                         "r": {"oneOf": [ref(0), {"type": "null"}]}}, "required": ["q"]}
     doc = {"definitions": defs}
-    c = {"nodes": [list(map(_l, nd)) if False else _ser(nd) for nd in nodes], "share": share, "doc": doc, "n": len(nodes)}
-    c["key"] = key_of(doc)
+    c = {"nodes": [list(map(_l, nd)) if False else _ser(nd) for nd in nodes], "share": share, "doc": doc, "n": len(nodes), "repl": repl}
+    c["key"] = key_of([doc, repl])
     return c
 
 
@@ -264,7 +271,12 @@ def cases(tier, seed):
     for nd in node_options(1):
         for sh in shares:
             out.append(mk([nd], sh))
+    for nd in node_options(1):
+        out.append(mk([nd], False, repl=True))
     opts2 = node_options(2, max_edges=1 if tier == "quick" else 2)
+    for a in node_options(2, max_edges=1):
+        for b in node_options(2, max_edges=1):
+            out.append(mk([a, b], False, repl=True))
     for a in opts2:
         for b in opts2:
             out.append(mk([a, b], False))
@@ -340,7 +352,7 @@ def execute(cases_, tier, seed):
     res = Result()
     res.rule = ("one case = one reference multigraph over n definitions (+ optional sharing definition) ingested by the real typify-impl; "
                 "non-trivial = graph with a by-value cycle in the input; distinct by schema document")
-    jobs = [{"id": c["key"], "settings": {}, "ops": [{"root": c["doc"]}], "want": ["api"]} for c in cases_]
+    jobs = [{"id": c["key"], "settings": REPL_SETTINGS if c.get("repl") else {}, "ops": [{"root": c["doc"]}], "want": ["api"]} for c in cases_]
     ans = adapter.run_jobs(jobs)
     to_compile = {}
     n_box_graphs = 0
@@ -350,7 +362,7 @@ def execute(cases_, tier, seed):
         res.transitions += 1
         nodes = [_deser(nd) for nd in c["nodes"]]
         cyc_in = input_has_byvalue_cycle(nodes)
-        feats = {"n": c["n"], "share": c["share"], "kinds": "+".join(nd[0] for nd in nodes)}
+        feats = {"n": c["n"], "share": c["share"], "kinds": "+".join(nd[0] for nd in nodes), "repl": bool(c.get("repl"))}
         op = (a.get("ops") or [{}])[0]
         if a.get("abort") or op.get("status") != "ok":
             res.violations.append(Violation(c["key"], "ingest-failed", "recursive schema rejected/aborted: %s" % (op or a), c, expected="ok",
@@ -371,7 +383,7 @@ def execute(cases_, tier, seed):
             names = {t["id"]: t.get("name") for t in types}
             res.violations.append(Violation(c["key"], "box-without-cycle", "Box introduced although the definitions contain no by-value cycle: %s" % [names[b] for b in boxes],
                                             c, expected="no Box", observed={"boxes": [names[b] for b in boxes]}, features=feats))
-        if cyc_in and (c["n"] == 1 or (tier != "quick" and c["n"] == 2 and not c["share"])):
+        if cyc_in and not c.get("repl") and (c["n"] == 1 or (tier != "quick" and c["n"] == 2 and not c["share"])):
             # one representative per distinct generated structure
             sig = key_of(sorted((t.get("name"), t.get("kind"), str(t.get("props") or t.get("variants") or t.get("inner"))) for t in types))
             to_compile.setdefault(sig, c)
